@@ -1,3 +1,4 @@
+import numpy as np
 import pandas as pd
 import xarray as xr
 from typing_extensions import Self
@@ -48,6 +49,7 @@ class Stacker(Transformer):
         self.coords_in = {}
         self.coords_out = {}
         self.data_type = None
+        self.var_dims = {}
 
     def get_serialization_attrs(self) -> dict:
         return dict(
@@ -57,6 +59,7 @@ class Stacker(Transformer):
             coords_in=self.coords_in,
             coords_out=self.coords_out,
             data_type=self.data_type,
+            var_dims=self.var_dims,
         )
 
     def _validate_data_type(self, X: Data):
@@ -273,20 +276,68 @@ class Stacker(Transformer):
             for d in X.dims
             if d != feature_name and X.sizes[d] == 1 and d in X.coords
         }
-        ds: DataSet = X.to_unstacked_dataset(feature_name, "variable")
+        ds: DataSet = self._unstack_feature_to_dataset(X)
         # Unstack only what the stacker stacked: a MultiIndex of the user's own sample
         # dimension (as carried by scores passed to inverse_transform) must stay intact
-        stacked_dims = [feature_name] if has_only_one_sample_dim else [feature_name, sample_name]
-        stacked_dims = [
-            d for d in stacked_dims
-            if d in ds.dims and isinstance(ds.indexes.get(d), pd.MultiIndex)
-        ]
-        ds = ds.unstack(stacked_dims)
+        if (
+            not has_only_one_sample_dim
+            and sample_name in ds.dims
+            and isinstance(ds.indexes.get(sample_name), pd.MultiIndex)
+        ):
+            ds = ds.unstack(sample_name)
         for d, values in size_one.items():
             if d not in ds.dims:
                 ds = ds.drop_vars(d, errors="ignore").expand_dims({d: values})
         ds = self._reorder_dims(ds)
         return ds
+
+    def _unstack_feature_to_dataset(self, X: DataArray) -> DataSet:
+        """Split the stacked feature dimension into the variables of the Dataset and
+        unstack each variable along the feature dimensions it actually has.
+
+        The variables of a Dataset may have different dimension sets. The feature
+        MultiIndex then holds NaN in the levels a variable lacks; unstacking all
+        variables at once would give every variable the union of all dimensions
+        (with a NaN label) and misplace values.
+        """
+        feature_name = self.feature_name
+        index = X.indexes[feature_name]
+        variables = index.get_level_values("variable")
+        data_vars = {}
+        for name in pd.unique(variables):
+            positions = np.flatnonzero(variables == name)
+            sub_index = index[positions].droplevel("variable")
+            levels = list(sub_index.names)
+            # Keep the levels that are dimensions of this variable (for models stored
+            # before these were recorded: the levels that are not NaN throughout)
+            if str(name) in self.var_dims:
+                keep = [lvl for lvl in levels if lvl in self.var_dims[str(name)]]
+            else:
+                keep = [
+                    lvl
+                    for lvl in levels
+                    if not sub_index.get_level_values(lvl).isna().all()
+                ]
+            da = X.isel({feature_name: positions})
+            da = da.drop_vars([feature_name, "variable", *levels], errors="ignore")
+            if keep:
+                arrays = []
+                for lvl in keep:
+                    values = np.asarray(sub_index.get_level_values(lvl))
+                    # Undo the upcasting caused by NaN padding in other variables
+                    if lvl in self.coords_in:
+                        try:
+                            values = values.astype(self.coords_in[lvl].dtype)
+                        except (TypeError, ValueError):
+                            pass
+                    arrays.append(values)
+                new_index = pd.MultiIndex.from_arrays(arrays, names=keep)
+                coords = xr.Coordinates.from_pandas_multiindex(new_index, feature_name)
+                da = da.assign_coords(coords).unstack(feature_name)
+            else:
+                da = da.squeeze(feature_name, drop=True)
+            data_vars[name] = da
+        return xr.Dataset(data_vars)
 
     def _unstack_to_dataset_components(self, data: DataArray) -> DataSet:
         feature_name = self.feature_name
@@ -297,7 +348,7 @@ class Stacker(Transformer):
             for d in data.dims
             if d != feature_name and data.sizes[d] == 1 and d in data.coords
         }
-        ds: DataSet = data.to_unstacked_dataset(feature_name, "variable").unstack()
+        ds: DataSet = self._unstack_feature_to_dataset(data)
         for d, values in size_one.items():
             if d not in ds.dims:
                 ds = ds.drop_vars(d, errors="ignore").expand_dims({d: values})
@@ -338,6 +389,11 @@ class Stacker(Transformer):
         # NOTE: Dataset.dims is a mapping; keep the plain names so the attribute can be serialized
         self.dims_in = tuple(X.dims)
         self.coords_in = {dim: X.coords[dim] for dim in X.dims}
+        # The variables of a Dataset may have different dimension sets
+        if isinstance(X, xr.Dataset):
+            self.var_dims = {
+                str(name): [str(d) for d in var.dims] for name, var in X.data_vars.items()
+            }
 
         return self
 
